@@ -133,7 +133,7 @@ pub fn run(ctx: &mut Ctx) {
         }
         let mut rng = ctx.rng.fork();
         let t = match i % 10 {
-            _ if i % 4001 == 7 && !ctx.miri => gen::big_doc(&mut rng),
+            _ if i % 4001 == 7 && !ctx.miri => gen::big_doc(&mut rng, true),
             0 => gen::doc(&mut rng, &gen::DocCfg { max_depth: 8, max_fan: 3, nonfinite: true, container_p: 7 }),
             1 => gen::doc(&mut rng, &gen::DocCfg { max_depth: 2, max_fan: 12, nonfinite: true, container_p: 3 }),
             2 => {
